@@ -201,7 +201,8 @@ def eval_run(env, sc, op_name, variables, oseed, density, plan_spec, schedule, e
         return vs, None
     st = out["stop_state"] or {}
     feats = {"stop_with_inflight": bool(st.get("inflight")), "stop_with_open_source": bool(st.get("open_sources")),
-             "stop_payloads": st.get("payloads")}
+             "stop_payloads": st.get("payloads"), "multi_stream": env.text.count("@stream") >= 2,
+             "n_defer": min(env.text.count("@defer"), 3)}
     if out["prompt_violation"]:
         bad("prompt-release", out["prompt_violation"], feats)
     if stop["kind"] == "abort" and out["stop_done"]:
